@@ -196,3 +196,17 @@ impl TopicAliasSend {
         self.max_alias
     }
 }
+
+#[cfg(feature = "verif-hooks")]
+impl TopicAliasSend {
+    /// Verification hook: (max, alias -> topic in least-recently-used-first order)
+    pub fn verif_dump(&self) -> (TopicAliasType, Vec<(TopicAliasType, String)>) {
+        (
+            self.max_alias,
+            self.alias_to_topic
+                .iter()
+                .map(|(a, t)| (*a, t.clone()))
+                .collect(),
+        )
+    }
+}
